@@ -56,6 +56,11 @@ class InfraError(Exception):
     pass
 
 
+class FaultInjected(Exception):
+    """raised by generated user code (constraint bodies, callbacks) where a history places a fault"""
+    pass
+
+
 # ----------------------------------------------------------------------------- Lean side
 
 def _run(cmd, cwd=None, timeout=3600):
